@@ -106,6 +106,7 @@ type endpoint struct {
 	gid       int64         // goroutine id of the protocol function (the peer's message loop)
 	claimTD   uint64        // the most this connection has claimed to have (status TD, announced momentum heights)
 	noSync    func() bool   // rule clause 4: no sync cycle can start (set by the session; nil = nobody connected claims anything)
+	onWait    func()        // called once when a delivery has not come back after blockFirst
 	wedged    *blockVerdict // verdict of the stall classifier for this connection's handler
 	wedgeTold bool
 	whyNot    string // why the last stalled wait was not classified as blocked
@@ -252,6 +253,11 @@ func (ep *endpoint) deliver(code uint64, size uint32, payload io.Reader, descr s
 		case <-ep.done:
 			return dropped
 		case <-look.C:
+			if ep.onWait != nil {
+				f := ep.onWait
+				ep.onWait = nil
+				f()
+			}
 			if v := probe.sample(); v != nil {
 				ep.wedged = v
 				noteVerdict()
@@ -346,40 +352,45 @@ func (ep *endpoint) close() bool {
 // ---- session state ------------------------------------------------------------------------------------
 
 type session struct {
-	c        *pbt.C
-	sh       *shared
-	node     *sim.Node
-	onA      bool
-	k        uint64 // node height the generators work with (start height; after a completed sync the tip)
-	k0       uint64 // node height at session start
-	tip      uint64 // chain the hostile peer may honestly present: A[1..tip]
-	pm       *protocol.ProtocolManager
-	chainID  uint64
-	genesis  types.Hash
-	seed     uint64
-	eps      []*endpoint
-	host     *endpoint
-	honest   *endpoint
-	aborted  bool                // liveness wait expired
-	validSet map[uint64]bool     // heights of A whose momentum (header) was handed to the node unmodified
-	goodBlk  map[types.Hash]bool // account blocks of A handed to the node unmodified
-	tr       []string
-	hist     []string
-	epMu     sync.Mutex
-	trace    bool
-	respMu   sync.Mutex
-	respLog  []string
-	poolOK   map[types.Hash]bool // valid account blocks of A handed to the node (alone or inside a momentum)
-	txValid  bool                // a (possibly) valid account block was delivered
-	msgNo    int
-	policy   string
-	polFault string
-	respStop chan struct{}
-	respDone chan struct{}
-	downDone bool
-	downOK   bool
-	reached  int
-	heightOf map[types.Hash]uint64
+	c         *pbt.C
+	sh        *shared
+	node      *sim.Node
+	onA       bool
+	k         uint64 // node height the generators work with (start height; after a completed sync the tip)
+	k0        uint64 // node height at session start
+	tip       uint64 // chain the hostile peer may honestly present: A[1..tip]
+	pm        *protocol.ProtocolManager
+	chainID   uint64
+	genesis   types.Hash
+	seed      uint64
+	eps       []*endpoint
+	host      *endpoint
+	honest    *endpoint
+	aborted   bool                // liveness wait expired
+	validSet  map[uint64]bool     // heights of A whose momentum (header) was handed to the node unmodified
+	goodBlk   map[types.Hash]bool // account blocks of A handed to the node unmodified
+	tr        []string
+	hist      []string
+	epMu      sync.Mutex
+	trace     bool
+	respMu    sync.Mutex
+	respLog   []string
+	poolOK    map[types.Hash]bool // valid account blocks of A handed to the node (alone or inside a momentum)
+	txValid   bool                // a (possibly) valid account block was delivered
+	msgNo     int
+	policy    string
+	polFault  string
+	respStop  chan struct{}
+	respDone  chan struct{}
+	hold      chan struct{} // non-nil: the responder holds its BlocksMsg answers until this is closed
+	holding   chan struct{} // closed when the responder holds its first answer
+	holdOnce  sync.Once
+	relOnce   sync.Once
+	keySuffix string // appended to the message-loop-blocked key (history that differs in root cause)
+	downDone  bool
+	downOK    bool
+	reached   int
+	heightOf  map[types.Hash]uint64
 }
 
 // process-wide: shapes excluded by construction after a committed known finding was reproduced
@@ -405,7 +416,7 @@ func (s *session) note(format string, args ...interface{}) {
 func (s *session) addEp(ep *endpoint) {
 	ep.noSync = s.noSyncPossible
 	s.epMu.Lock()
-	s.addEp(ep)
+	s.eps = append(s.eps, ep)
 	s.epMu.Unlock()
 }
 
@@ -433,7 +444,7 @@ func (s *session) blockedFail(ep *endpoint, descr string) {
 	ep.wedgeTold = true
 	s.c.Class("message-loop-blocked")
 	s.note("  -> MESSAGE LOOP BLOCKED: handler of %s parked in %s [%s], nobody can release it", ep.name, v.fn, v.state)
-	s.c.Failf("C15/message-loop-blocked/"+v.fn,
+	s.c.Failf("C15/message-loop-blocked/"+v.fn+s.keySuffix,
 		"the message loop of peer %q is blocked for good after %s: its handler is parked in %s [%s] below handleMsg (same stack in %d samples >= %v apart) and no goroutine exists that could release it (and no connected peer claims more than the node has, so no synchronisation can start).\nsession so far:\n  %s\nhandler:\n%s\nprotocol goroutines:\n%s",
 		ep.name, descr, v.fn, v.state, v.samples, blockGap, strings.Join(s.hist, "\n  "), trim(v.stack, 2500), v.dump)
 }
@@ -1334,6 +1345,17 @@ func (s *session) startResponder(ep *endpoint) {
 				return
 			case rq := <-ep.reqs:
 				n++
+				if rq.code == codeGetBlocks && s.hold != nil {
+					// "during-sync" history: the momentums are handed over only when the main flow says so
+					s.holdOnce.Do(func() { close(s.holding) })
+					select {
+					case <-s.hold:
+					case <-s.respStop:
+						return
+					case <-ep.done:
+						return
+					}
+				}
 				code, payload := s.answer(rq, n)
 				if payload == nil {
 					continue
